@@ -75,9 +75,19 @@ type Config struct {
 	NoPause  bool `json:"nopause"`
 	LazyExch bool `json:"lazyexch"` // the application does not read its exchange channels until the end
 	StartSeq int  `json:"startseq"` // the session starts with one pending publish per level at this sequence number
-	Volatile bool `json:"volatile"`
-	WaitMin  int  `json:"waitmin_ms"`
-	WaitMax  int  `json:"waitmax_ms"`
+	// Seed: records an earlier incarnation left in the Persistence; the behaviour's steps damage and adopt it
+	Seed     []SeedRec `json:"seed,omitempty"`
+	Volatile bool      `json:"volatile"`
+	WaitMin  int       `json:"waitmin_ms"`
+	WaitMax  int       `json:"waitmax_ms"`
+}
+
+// SeedRec is one record of a Persistence left behind by an earlier incarnation.
+type SeedRec struct {
+	Key  uint   `json:"key"`
+	Kind string `json:"kind"` // PUB, REL
+	Tag  int    `json:"tag"`
+	Sseq uint64 `json:"sseq"`
 }
 
 // Behaviour is the unit of replay.
@@ -413,8 +423,42 @@ func Run(b *Behaviour) (events []sim.Ev) {
 			return
 		}
 	}
+	if len(b.Cfg.Seed) > 0 {
+		// in the order of their storage sequence numbers, as the earlier incarnation wrote them
+		seed := append([]SeedRec(nil), b.Cfg.Seed...)
+		sort.Slice(seed, func(i, j int) bool { return seed[i].Sseq < seed[j].Sseq })
+		put := func(key uint, pkt []byte, sseq uint64) {
+			var val []byte
+			for _, part := range mqtt.VerifEncodeValue(net.Buffers{pkt}, sseq) {
+				val = append(val, part...)
+			}
+			x.Store.Put(key, val)
+			x.storeEvent(simstore.Op{Op: "Save", Key: key, Val: val}, true)
+		}
+		for _, r := range seed {
+			lvl := 1
+			if r.Key&0xc000 == 0xc000 {
+				lvl = 2
+			}
+			pub := codec.Encode(&codec.Packet{T: "PUBLISH", QoS: lvl, ID: int(r.Key), Topic: "t", Payload: codec.Payload(r.Tag, 8)})
+			if r.Kind == "REL" {
+				// that transfer got as far as the PUBREC: the broker forwarded it and awaits the PUBREL
+				put(r.Key, pub, r.Sseq-1)
+				x.emit(sim.Ev{"e": "seedrec", "tag": r.Tag})
+				x.W.Broker.Awaiting(int(r.Key))
+				put(r.Key, codec.Encode(&codec.Packet{T: "PUBREL", ID: int(r.Key)}), r.Sseq)
+			} else {
+				put(r.Key, pub, r.Sseq)
+			}
+		}
+		x.emit(sim.Ev{"e": "stop", "gen": 1, "keys": x.keys()})
+		x.gen = 1
+		x.Client = nil
+	}
 	x.W.StallAfter = b.StallAfter
-	x.startProcs(b.Procs)
+	if x.Client != nil {
+		x.startProcs(b.Procs)
+	}
 	if b.Auto {
 		x.W.AutoBroker = true
 	}
